@@ -19,6 +19,7 @@ import (
 	"math"
 	"sort"
 	"strings"
+	"sync"
 	"testing"
 	"time"
 
@@ -1994,6 +1995,296 @@ func (h *c12H) mutate(kind string, pb proto.Message) proto.Message {
 }
 
 // ---------------------------------------------------------------------------------------------
+// aliasing: every byte string the code hands out (bytes-to-sign, batch encoding, hashes, wire bytes) is
+// kept together with a copy; after all the other objects have been encoded too, in other orders, every
+// slice handed out earlier must still equal its copy and every recomputation must equal the first answer.
+
+type c12Call struct {
+	name  string
+	f     func() []byte
+	fresh bool // the API hands out a fresh slice: scribbling over it must not change later answers
+}
+
+func c12BigBatch(seed, n, size int) *clientpb.Batch {
+	b := &clientpb.Batch{}
+	for i := 0; i < n; i++ {
+		data := bytes.Repeat([]byte{byte(seed), byte(i), byte(seed >> 8), byte(i >> 8)}, size/4+1)[:size]
+		b.Commands = append(b.Commands, &clientpb.Command{ClientID: uint32(seed + 1), SequenceNumber: uint64(i + 1), Data: data})
+	}
+	return b
+}
+
+func c12WireBytes(m proto.Message) []byte {
+	b, err := proto.MarshalOptions{Deterministic: true}.Marshal(m)
+	if err != nil {
+		panic(err)
+	}
+	return b
+}
+
+func c12SigCalls(prefix string, s hotstuff.QuorumSignature) []c12Call {
+	var cs []c12Call
+	if s == nil {
+		return cs
+	}
+	cs = append(cs, c12Call{prefix + "Signature.ToBytes", s.ToBytes, true})
+	switch ms := s.(type) {
+	case crypto.Multi[*crypto.ECDSASignature]:
+		for i, x := range ms {
+			cs = append(cs, c12Call{fmt.Sprintf("%sECDSASignature[%d].ToBytes", prefix, i), x.ToBytes, false})
+		}
+	case crypto.Multi[*crypto.EDDSASignature]:
+		for i, x := range ms {
+			cs = append(cs, c12Call{fmt.Sprintf("%sEDDSASignature[%d].ToBytes", prefix, i), x.ToBytes, true})
+		}
+	case *crypto.BLS12AggregateSignature:
+		cs = append(cs, c12Call{prefix + "Bitfield.Bytes", func() []byte { return ms.Bitfield().Bytes() }, false})
+	}
+	return cs
+}
+
+func c12QCCalls(prefix string, q hotstuff.QuorumCert) []c12Call {
+	cs := []c12Call{
+		{prefix + "QuorumCert.ToBytes", q.ToBytes, true},
+		{prefix + "wire(QuorumCertToProto)", func() []byte { return c12WireBytes(QuorumCertToProto(q)) }, true},
+		{prefix + "QuorumCert.BlockHash", func() []byte { h := q.BlockHash(); return h[:] }, true},
+	}
+	return append(cs, c12SigCalls(prefix, q.Signature())...)
+}
+
+func c12BlockCalls(prefix string, b *hotstuff.Block) []c12Call {
+	cs := []c12Call{
+		{prefix + "Block.ToBytes", b.ToBytes, true},
+		{prefix + "Block.Commands.Marshal", func() []byte { return b.Commands().Marshal() }, true},
+		{prefix + "Block.Hash", func() []byte { h := b.Hash(); return h[:] }, true},
+		{prefix + "sha256(Block.ToBytes)", func() []byte { h := sha256.Sum256(b.ToBytes()); return h[:] }, true},
+		{prefix + "wire(BlockToProto)", func() []byte { return c12WireBytes(BlockToProto(b)) }, true},
+		{prefix + "decoded(wire).ToBytes", func() []byte {
+			pb := &Block{}
+			if err := proto.Unmarshal(c12WireBytes(BlockToProto(b)), pb); err != nil {
+				panic(err)
+			}
+			return BlockFromProto(pb).ToBytes()
+		}, true},
+		{prefix + "Unmarshal(Commands.Marshal).Marshal", func() []byte {
+			nb := &clientpb.Batch{}
+			if err := proto.Unmarshal(b.Commands().Marshal(), nb); err != nil {
+				panic(err)
+			}
+			return nb.Marshal()
+		}, true},
+	}
+	return append(cs, c12QCCalls(prefix+"cert.", b.QuorumCert())...)
+}
+
+func (h *c12H) aliasCalls(u *c12Universe) []c12Call {
+	blk := u.blocks[2]
+	qcA, qcB := u.qcFor(blk, []int{0, 1, 2}), u.qcFor(blk, []int{2, 0})
+	var cs []c12Call
+	sizes := [][2]int{{0, 0}, {1, 5}, {8, 100}, {3, 1}, {64, 4096}, {64, 4099}, {16, 2048}, {200, 37}}
+	for i, sz := range sizes {
+		var batch *clientpb.Batch
+		if i > 0 {
+			batch = c12BigBatch(i, sz[0], sz[1])
+		}
+		qc := qcA
+		if i%2 == 1 {
+			qc = qcB
+		}
+		b := hotstuff.NewBlock(blk.Hash(), qc, batch, hotstuff.View(30+i), u.ids[i%u.n])
+		cs = append(cs, c12BlockCalls(fmt.Sprintf("block%d(%dx%dB).", i, sz[0], sz[1]), b)...)
+	}
+	p := hotstuff.NewProposeMsg(u.ids[1], 40, qcA, c12BigBatch(9, 32, 1000))
+	agg := u.aggFor(41, []int{0, 1, 2}, []*hotstuff.QuorumCert{&qcA, &qcB, nil})
+	p.AggregateQC = &agg
+	cs = append(cs, c12BlockCalls("proposal.", p.Block)...)
+	cs = append(cs, c12Call{"wire(ProposalToProto)", func() []byte { return c12WireBytes(ProposalToProto(p)) }, true})
+	cs = append(cs, c12QCCalls("qcA.", qcA)...)
+	cs = append(cs, c12QCCalls("qcB.", qcB)...)
+	pc := u.pcFor(blk, 1)
+	cs = append(cs, c12Call{"PartialCert.ToBytes", pc.ToBytes, true},
+		c12Call{"wire(PartialCertToProto)", func() []byte { return c12WireBytes(PartialCertToProto(pc)) }, true})
+	tc := u.tcFor(17, []int{1, 0, 2})
+	cs = append(cs, c12Call{"TimeoutCert.ToBytes", tc.ToBytes, true},
+		c12Call{"wire(TimeoutCertToProto)", func() []byte { return c12WireBytes(TimeoutCertToProto(tc)) }, true})
+	cs = append(cs, c12SigCalls("tc.", tc.Signature())...)
+	cs = append(cs, c12Call{"wire(AggregateQCToProto)", func() []byte { return c12WireBytes(AggregateQCToProto(agg)) }, true})
+	for _, id := range c12SortedIDs(agg.QCs()) {
+		id, q := id, agg.QCs()[id]
+		cs = append(cs, c12Call{fmt.Sprintf("agg.timeout-bytes[%d]", id), hotstuff.TimeoutMsg{ID: id, View: agg.View(), SyncInfo: hotstuff.NewSyncInfoWith(q)}.ToBytes, true})
+	}
+	si := hotstuff.NewSyncInfoWith(qcA)
+	si.SetTC(tc)
+	si.SetAggQC(agg)
+	cs = append(cs, c12Call{"wire(SyncInfoToProto)", func() []byte { return c12WireBytes(SyncInfoToProto(si)) }, true})
+	tm := hotstuff.TimeoutMsg{ID: u.ids[0], View: 17, ViewSignature: u.sign(0, hotstuff.View(17).ToBytes()), SyncInfo: si}
+	tm.MsgSignature = u.sign(0, tm.ToBytes())
+	cs = append(cs, c12Call{"TimeoutMsg.ToBytes", tm.ToBytes, true},
+		c12Call{"wire(TimeoutMsgToProto)", func() []byte { return c12WireBytes(TimeoutMsgToProto(tm)) }, true},
+		c12Call{"View.ToBytes", hotstuff.View(1<<40 + 17).ToBytes, true},
+		c12Call{"ID.ToBytes", u.ids[u.n-1].ToBytes, true})
+	return cs
+}
+
+func (h *c12H) runAliasing(u *c12Universe) {
+	v, r := h.v, h.v.rng
+	calls := h.aliasCalls(u)
+	type kept struct{ orig, copy []byte }
+	res := make([]kept, len(calls))
+	short := func(b []byte) string {
+		if len(b) > 48 {
+			return fmt.Sprintf("%x...(%d bytes)", b[:48], len(b))
+		}
+		return fmt.Sprintf("%x", b)
+	}
+	checkKept := func(upto int, after string) {
+		for j := 0; j < upto; j++ {
+			if res[j].orig != nil && !bytes.Equal(res[j].orig, res[j].copy) {
+				v.Oracle(false, "aliasing:returned-bytes-changed-by-later-call",
+					"the slice returned by "+calls[j].name+" changed when "+after+" was computed afterwards",
+					map[string]any{"scheme": u.scheme, "first_call": calls[j].name, "later_call": after,
+						"returned": short(res[j].copy), "now": short(res[j].orig)})
+				res[j].orig = nil // report once
+			}
+		}
+	}
+	// first pass, in order
+	for i, c := range calls {
+		b := c.f()
+		res[i] = kept{b, append([]byte{}, b...)}
+		v.Seen(fmt.Sprintf("alias|%s|%s|%x", u.scheme, c.name, sha256.Sum256(b)), true, map[string]any{"call": c.name, "scheme": u.scheme, "bytes": len(b)})
+		v.Count("aliasing.calls")
+		checkKept(i, c.name)
+	}
+	// recomputations in reverse and in two random orders
+	orders := [][]int{}
+	rev := make([]int, len(calls))
+	for i := range rev {
+		rev[i] = len(calls) - 1 - i
+	}
+	orders = append(orders, rev, r.Perm(len(calls)), r.Perm(len(calls)))
+	for _, ord := range orders {
+		for _, i := range ord {
+			b := calls[i].f()
+			v.Count("aliasing.recomputations")
+			ok := bytes.Equal(b, res[i].copy)
+			v.Oracle(ok, "aliasing:recomputation-differs", calls[i].name+" gives other bytes than the first time although nothing about the object changed",
+				map[string]any{"scheme": u.scheme, "call": calls[i].name, "first": short(res[i].copy), "now": short(b)})
+			checkKept(len(calls), calls[i].name)
+		}
+	}
+	// scribble over returned slices; later answers must not change where a fresh slice is promised
+	for i, c := range calls {
+		b := c.f()
+		for k := range b {
+			b[k] ^= 0xa5
+		}
+		again := c.f()
+		same := bytes.Equal(again, res[i].copy)
+		if !same && !c.fresh {
+			for k := range b { // undo: this accessor documents that it exposes the internal bytes
+				b[k] ^= 0xa5
+			}
+			acc := c.name[strings.LastIndex(c.name[:strings.LastIndex(c.name, ".")], ".")+1:] // e.g. ECDSASignature[0].ToBytes
+			if k := strings.Index(acc, "["); k >= 0 {
+				acc = acc[:k] + acc[strings.Index(acc, "]")+1:]
+			}
+			if v.counts["aliasing.internal-bytes-exposed."+acc] == 0 {
+				v.Note("observation (baseline behaviour, not counted): " + acc + " returns the object's internal bytes - writing to the result changes the object")
+			}
+			v.Count("aliasing.internal-bytes-exposed." + acc)
+			continue
+		}
+		v.Count("aliasing.scribble-tests")
+		v.Oracle(same, "aliasing:object-changed-through-returned-slice", "writing to the slice returned by "+c.name+" changed what it returns afterwards",
+			map[string]any{"scheme": u.scheme, "call": c.name})
+		checkKept(len(calls), "scribbling over the result of "+c.name)
+	}
+}
+
+// concurrent decoding: network goroutines decode the blocks of several senders at the same time while
+// other goroutines need the bytes of blocks they hold; every decoded block must have the sender's hash
+// and bytes-to-sign.
+func c12Concurrent(v *verifOut, senders, rounds int) {
+	type sent struct {
+		block *hotstuff.Block
+		hash  hotstuff.Hash
+		bytes []byte
+		wire  []byte
+	}
+	msgs := make([]sent, senders)
+	parent := hotstuff.GetGenesis()
+	for i := range msgs {
+		qc := hotstuff.NewQuorumCert(nil, 0, parent.Hash())
+		n, size := 64, 4096+i
+		if i%4 == 3 {
+			n, size = 3, 40
+		}
+		b := hotstuff.NewBlock(parent.Hash(), qc, c12BigBatch(i, n, size), hotstuff.View(i+1), hotstuff.ID(i+1))
+		msgs[i] = sent{b, b.Hash(), b.ToBytes(), c12WireBytes(BlockToProto(b))}
+	}
+	var wg sync.WaitGroup
+	var mut sync.Mutex
+	failures := 0
+	fail := func(fp, what string, in map[string]any) {
+		mut.Lock()
+		defer mut.Unlock()
+		failures++
+		if failures <= 3 {
+			v.Oracle(false, fp, what, in)
+		}
+	}
+	for i := range msgs {
+		wg.Add(2)
+		go func(i int, m sent) { // the network side
+			defer wg.Done()
+			for round := 0; round < rounds; round++ {
+				pb := &Block{}
+				if err := proto.Unmarshal(m.wire, pb); err != nil {
+					fail("concurrent:unmarshal-error", err.Error(), nil)
+					return
+				}
+				got := BlockFromProto(pb)
+				in := map[string]any{"sender": i + 1, "round": round, "goroutines": 2 * senders, "commands": len(m.block.Commands().GetCommands()),
+					"sender_hash": fmt.Sprintf("%x", m.hash[:]), "decoded_hash": fmt.Sprintf("%x", sha256.Sum256(got.ToBytes()))}
+				if got.Hash() != m.hash {
+					fail("concurrent:decoded-block-hash-differs", "a block decoded while other blocks were being decoded/encoded has another hash than the sender's block", in)
+					return
+				}
+				if !bytes.Equal(got.ToBytes(), m.bytes) {
+					fail("concurrent:decoded-block-bytes-differ", "a block decoded while other blocks were being decoded/encoded has other bytes-to-sign than the sender's block", in)
+					return
+				}
+			}
+		}(i, msgs[i])
+		go func(i int, m sent) { // the event-loop side: signing / verifying needs the bytes of held blocks
+			defer wg.Done()
+			for round := 0; round < rounds; round++ {
+				if !bytes.Equal(m.block.ToBytes(), m.bytes) {
+					fail("concurrent:held-block-bytes-differ", "ToBytes() of a block that nobody changed gives other bytes while other blocks are being decoded/encoded",
+						map[string]any{"sender": i + 1, "round": round, "goroutines": 2 * senders})
+					return
+				}
+			}
+		}(i, msgs[i])
+	}
+	wg.Wait()
+	v.CountN("concurrent.decodes", senders*rounds)
+	v.Seen(fmt.Sprintf("concurrent|%d|%d", senders, rounds), true, map[string]any{"senders": senders, "rounds": rounds})
+	if failures == 0 {
+		v.Oracle(true, "", "", nil)
+	}
+}
+
+// TestVerifC12Concurrent is the soak version of the concurrent stream (thorough tier, under -race).
+func TestVerifC12Concurrent(t *testing.T) {
+	v := verifNew("C12")
+	v.prop = "C12race" // own stats file next to the main harness's
+	c12Concurrent(v, 16, 150)
+	v.Close("16 senders x 150 rounds of concurrent decoding under the race detector")
+}
+
+// ---------------------------------------------------------------------------------------------
 // the test
 
 func TestVerifC12(t *testing.T) {
@@ -2229,6 +2520,12 @@ func TestVerifC12(t *testing.T) {
 		x, c, meta := gen(u, kind)
 		h.roundTrip(u, strings.TrimSuffix(kind, "*"), x, c, meta)
 	}
+
+	// ---- (b') aliasing between results handed out, and concurrent decoding ----------------------
+	for _, u := range us {
+		h.runAliasing(u)
+	}
+	c12Concurrent(v, 8, v.Pick(40, 150))
 
 	// ---- (c) malformed / boundary protobuf messages through XFromProto ----------------------
 	// absent and empty messages first
